@@ -159,6 +159,19 @@ def r14_2(ctx, rule: str = "R14.2") -> None:
     ctx.count(rule, n, 12, "guess_key call sites")
 
 
+def r14_10(ctx) -> None:
+    """_normalize_key hands a key or key set on unchanged; raw text goes through OctKey.import_key (the warning path) - it never
+    unpacks a key set and never builds a key object directly"""
+    eng = ctx.eng
+    nk = eng.prog.func("jwk:_normalize_key")
+    kp = nk.pos_params[0]
+    rets = [r.value for r in fn_nodes(nk) if isinstance(r, ast.Return) and r.value is not None]
+    got = sorted({t for rv in rets for t in resolve_all(eng, nk, rv)})
+    ok = bool(got) and set(got) <= {kp, f"OctKey.import_key({kp})"} and kp in got
+    ctx.check(ok, "R14.10", nk, nk.node, nk.short, f"_normalize_key returns {got}: a key set must be passed on as it is (the kid rules of guess_key apply to it) and raw key text "
+              "must be imported through OctKey.import_key (unsafe-text warning)", f"return {kp} | OctKey.import_key({kp})", construct="_normalize_key results")
+
+
 def r14_3(ctx) -> None:
     eng = ctx.eng
     P = eng.prog
@@ -345,9 +358,12 @@ def r14_6_7(ctx) -> None:
 def run(ctx) -> None:
     ctx.guard(r14_1)
     ctx.guard(r14_2)
+    ctx.guard(r14_10)
     ctx.guard(r14_3)
     ctx.guard(r14_4_5)
     ctx.guard(r14_6_7)
     # the recorded kid is part of what is signed: key selection precedes the header encoding and writes into the encoded dict
     from .c03 import r03_2
     ctx.guard(r03_2, "R14.8")
+    from .c13 import r13_4
+    ctx.guard_as("R14.9", r13_4)  # "every key in a set has a kid" of its own: ensure_kid stores the thumbprint into the key's own dict only
